@@ -11,7 +11,10 @@ MANIFEST = {
             "objects) over the table of access sites REGENERATED from the Go source on every run by a go/ast+go/types "
             "translator, via a boolean checker proved sound and complete for every table; what a common lock buys in every "
             "reachable state of a mutex machine (C20_common_lock_excludes); acquire/release balance of pooled connections "
-            "and goroutines per unit of client work in any interleaving (C20_balance, C20_interleaving_balanced), tied to the "
+            "and goroutines per unit of client work in any interleaving (C20_balance, C20_interleaving_balanced); no re-entrant "
+            "lock, an acyclic wait-for graph over locks / Once / connection pool (ranking certificate), no use of a sync.Pool "
+            "value after Put - each a checker proved sound for every table and instantiated at the regenerated one; the table "
+            "covers EVERY package-level variable of the client; accounting is tied to the "
             "source by the regenerated table of Conn(ctx)/Close brackets. Explored, not proved: N goroutines driving one "
             "initialised client (TM, TCC, AT over a fake driver, load-balance selection over opening/closing sessions, "
             "table-meta cache, sql.Open, phase-two requests through the real handler) in a child process built with -race; "
@@ -39,7 +42,7 @@ TRUSTED = vlib.TRUSTED_COMMON + [
     "SendAsyncResponse), fake getty sessions; Go race detector; this driver's race-log parser",
 ]
 DIAG_HEADER = """From Coq Require Import String List NArith Bool.
-From SeataV Require Import Conc.LockSet Conc.LockSetListing Conc.Reent.
+From SeataV Require Import Conc.LockSet Conc.LockSetListing Conc.Reent Conc.Order.
 From SeataV Require Gen.LockSet.
 Import ListNotations. Open Scope string_scope.
 Definition T := SeataV.Gen.LockSet.ls_table.
@@ -86,14 +89,22 @@ def diagnose():
         "filter (fun r => negb (existsb (String.eqb (fst (fst r))) LeakLive)) SeataV.Gen.LockSet.ls_open_exits",
         "map (fun h => (hc_func h, hc_line h, hc_lock h, hc_mode h, hc_callee h)) (reentrant_calls SeataV.Gen.LockSet.ls_funcs SeataV.Gen.LockSet.ls_held_calls)",
         "closed_table SeataV.Gen.LockSet.ls_funcs",
+        "order_bad_edges SeataV.Gen.LockSet.ls_order_edges SeataV.Gen.LockSet.ls_order_rank",
+        "filter (fun t => negb (Nat.eqb (length (snd t)) 0)) (map (fun t => (fst t, pool_bad_from pst0 (snd t))) SeataV.Gen.LockSet.ls_pool_traces)",
     ]
     vals = vlib.coq_compute("C20", DIAG_HEADER, exprs)
     keys = ["failing_pairs", "unknown_rows", "missing_registries", "stale_listed_pairs", "unclosed_unlisted_brackets",
-            "exits_with_connection_still_open", "reentrant_lock_calls", "reent_closure_certificate_closed"]
+            "exits_with_connection_still_open", "reentrant_lock_calls", "reent_closure_certificate_closed",
+            "wait_for_edges_on_a_cycle", "pool_values_used_after_put"]
     return {k: (v or "")[:3000] for k, v in zip(keys, vals)}
 
 
 # ---------------------------------------------------------------- race logs
+def race_id(var):
+    last = var.split(".")[-1]
+    return "race.log" if var.startswith("util/log.") else "race." + last
+
+
 def race_reports(logs, repo):
     """-> list of dict(sites=[(file, line, func) or None, ...], text) for every report"""
     out = []
@@ -108,13 +119,19 @@ def race_reports(logs, repo):
                 if not re.match(r"(Previous )?(read|write|atomic read|atomic write)\b", b, flags=re.I):
                     continue
                 frames = re.findall(r"\n\s+(\S+?)\(\)\n\s+(\S+?):(\d+)", "\n" + b)
+                # the site is the innermost frame of the CLIENT (pkg/) on this stack: a race inside a
+                # library object that client code reaches from both goroutines (a pooled parser, a
+                # shared slice handed to append) is the client's to synchronise.  A stack whose first
+                # non-runtime frame is the harness, or that has no client frame, is not a finding.
                 site = None
                 for fn, path, line in frames:
                     if "/src/runtime/" in path or "/src/sync/atomic/" in path or "/src/internal/" in path:
                         continue
+                    if "/harness/" in path or fn.startswith("verifh/"):
+                        break
                     if path.startswith(repo.rstrip("/") + "/pkg/") and not path.endswith("verif_hooks.go"):
                         site = (os.path.relpath(path, repo), int(line), fn.split("/")[-1])
-                    break       # the first non-runtime frame decides: third-party or harness code is not a finding
+                        break
                 sites.append(site)
             out.append({"sites": sites[:2], "text": rep.strip()[:6000]})
     return out
@@ -183,8 +200,8 @@ def run(chk, replay_obj=None):
     listed, leak_listed = parse_listing()
     findings = {f.get("id"): f for f in vlib.known_findings("C20")}
     want = set()
-    if listed:
-        want.add("race.commonHook")
+    for v, _, _ in listed:
+        want.add(race_id(v))
     for f in leak_listed:
         want.add("leak.refresh-conn" if f.endswith(".refresh") else "leak.undo-conn" if f.endswith(".Undo") else "leak." + f)
     if set(findings) != want:
@@ -199,7 +216,8 @@ def run(chk, replay_obj=None):
 
     # ---- (B2) + direct oracle: the real client under the race detector
     data, hsecs = vlib.run_harness("stress", chk.tmp("stress.json"), timeout=secs * 3 + 400, race=True,
-                                   seed=chk.seed, secs=secs, workers=workers, repo=vlib.REPO)
+                                   seed=chk.seed, secs=secs, workers=workers, repo=vlib.REPO,
+                                   maxtarget=(4 if chk.tier == "quick" else 8))
     child = data.get("child")
     reports = race_reports(data.get("race_logs"), vlib.REPO)
     rc = classify_races(reports, rows, set(listed))
@@ -280,9 +298,9 @@ def run(chk, replay_obj=None):
     # ---- static obligations
     if not pr["ok"]:
         chk.violation("a proof obligation of C20 no longer checks on the tables regenerated from the source "
-                      "(lock discipline / well-formedness / listed findings / connection given back on every path / "
-                      "no re-entrant lock): %s" % json.dumps({k: v for k, v in (diag or {}).items() if v not in ("[]", "true")})[:700],
-                      {"theorem": "Props/P_C20.v (C20_lockset, C20_table_wf, C20_listed_findings_refuted, C20_brackets, C20_no_reentrant_lock)",
+                      "(lock discipline over every package-level variable / well-formedness / listed findings / connection given back on "
+                      "every path / no re-entrant lock / acyclic wait-for graph / sync.Pool values): %s" % json.dumps({k: v for k, v in (diag or {}).items() if v not in ("[]", "true")})[:700],
+                      {"theorem": "Props/P_C20.v (C20_lockset, C20_table_wf, C20_listed_findings_refuted, C20_brackets, C20_no_reentrant_lock, C20_wait_for_acyclic, C20_pool_no_use_after_put)",
                        "diagnosis": diag, "coq_output": pr["out"][-1500:]}, found_dynamic)
 
     # ---- stale listing entries: listed findings that no longer reproduce on the regenerated tables.
@@ -291,7 +309,7 @@ def run(chk, replay_obj=None):
     if pr["ok"]:
         sv = vlib.coq_compute("C20", ACC_HEADER, ["ls_stale", "ls_leak_stale"])
         for v, f1, f2 in re.findall(r'\("([^"]*)", "([^"]*)", "([^"]*)"\)', sv[0] or ""):
-            stale.append("id=race.%s listed pair (%s, %s) no longer violates the lock discipline / is no longer in the table" % (v.split(".")[-1], f1, f2))
+            stale.append("id=%s listed pair (%s, %s) no longer violates the lock discipline / is no longer in the table" % (race_id(v), f1, f2))
         for f in re.findall(r'"([^"]*)"', sv[1] or ""):
             fid = "leak.refresh-conn" if f.endswith(".refresh") else "leak.undo-conn" if f.endswith(".Undo") else "leak." + f
             stale.append("id=%s listed function %s gives its connection back on every path now (or takes none)" % (fid, f))
@@ -304,9 +322,12 @@ def run(chk, replay_obj=None):
     # ---- known findings (each reproduces statically on every run; dynamic sightings are counted)
     live_pairs = [t for t in listed if not any(("(%s, %s)" % (t[1], t[2])) in st and t[0].split(".")[-1] in st for st in stale)]
     if pr["ok"]:
-        if "race.commonHook" in findings and live_pairs:
+        if "race.commonHook" in findings and any(t[0].endswith(".commonHook") for t in live_pairs):
             chk.known("id=race.commonHook exec.commonHook is written by RegisterCommonHook/CleanCommonHook without a lock while "
                       "BuildExecutor reads it (C20_listed_findings_refuted holds; race reports on it this run: %d)" % len(rc["listed"]))
+        if "race.log" in findings and any(t[0].startswith("util/log.") for t in live_pairs):
+            chk.known("id=race.log the package-level logger is replaced by SetLogger/InitWithOption without synchronisation while every "
+                      "log call reads it (%d listed pairs refuted in Coq)" % sum(1 for t in live_pairs if t[0].startswith("util/log.")))
         if "leak.undo-conn" in findings and not undo_closed:
             seen = sum(u["inuse1"] for u in units if u["kind"] == "at_phase2" and u["outcome"] == "rollback")
             chk.known("id=leak.undo-conn BaseUndoLogManager.Undo never closes the connection it takes "
